@@ -1005,6 +1005,9 @@ async def _fh_attach(ctx: Ctx, a: Actor, st: dict) -> Any:
 
     w = ctx.world
     L = ctx.L
+    oid = w.new_id("conn")
+    stub = StubConnection(ctx, oid)
+    w.rec("conn_new", conn=oid)  # (in front of the socket: the history index attributes a new socket to the newest connection)
     sock = SimSocket(w, _s.AF_INET, _s.SOCK_STREAM, _s.IPPROTO_TCP)
     sock.connect_done = True
     sock.peer = ("10.0.0.5", 6053)
@@ -1012,9 +1015,6 @@ async def _fh_attach(ctx: Ctx, a: Actor, st: dict) -> Any:
     conn = SimConn(w.net, sock, dev)
     sock.conn = conn
     w.net.conns.append(conn)
-    oid = w.new_id("conn")
-    stub = StubConnection(ctx, oid)
-    w.rec("conn_new", conn=oid)
     w.rec("tcp_established", fd=sock._fd, addr="10.0.0.5", conn=conn.cid)
     ctx.extra["stub"] = stub
     kind = st.get("kind", "plaintext")
@@ -1216,12 +1216,30 @@ async def _s_sub(ctx: Ctx, a: Actor, st: dict) -> Any:
     elif kind == "logs":
         cli.subscribe_logs(lambda msg: w.rec("cb_log", tag=tag, message=bytes(msg.message)))
     elif kind == "service_calls":
-        cli.subscribe_service_calls(lambda call: w.rec("cb_service", tag=tag, service=call.service, cls=type(call).__name__))
+
+        def on_service(call: Any) -> None:
+            w.rec("cb_service", tag=tag, service=call.service, cls=type(call).__name__, is_event=bool(call.is_event), data=dict(call.data), data_template=dict(call.data_template), variables=dict(call.variables))
+            if st.get("scribble", True):
+                # a consumer that merges rendered templates into the mapping it was handed (the model is the consumer's
+                # from then on): nothing of that may show up in a later delivery
+                call.data["rendered"] = "by-" + tag
+                call.data_template.clear()
+                call.variables["seen"] = "1"
+
+        cli.subscribe_service_calls(on_service)
     elif kind == "ha_states":
         on_req = (lambda e, attr: w.rec("cb_ha_request", tag=tag, entity_id=e, attribute=attr)) if st.get("with_request", True) else None
         cli.subscribe_home_assistant_states(lambda e, attr: w.rec("cb_ha_sub", tag=tag, entity_id=e, attribute=attr), on_req)
     elif kind == "ble_adv":
-        unsub = cli.subscribe_bluetooth_le_advertisements(lambda adv: w.rec("cb_adv", tag=tag, address=adv.address, cls=type(adv).__name__))
+
+        def on_adv(adv: Any) -> None:
+            w.rec("cb_adv", tag=tag, address=adv.address, cls=type(adv).__name__, rssi=adv.rssi, name=adv.name, service_uuids=list(adv.service_uuids), service_data={k: bytes(v).hex() for k, v in adv.service_data.items()}, manufacturer_data={int(k): bytes(v).hex() for k, v in adv.manufacturer_data.items()})
+            if st.get("scribble", True):
+                adv.service_uuids.append("scribbled-" + tag)
+                adv.service_data["scribbled"] = b"\x00"
+                adv.manufacturer_data[65535] = b"\x00"
+
+        unsub = cli.subscribe_bluetooth_le_advertisements(on_adv)
     elif kind == "ble_raw":
         unsub = cli.subscribe_bluetooth_le_raw_advertisements(lambda msg: w.rec("cb_raw_adv", tag=tag, n=len(msg.advertisements)))
     elif kind == "ble_free":
